@@ -4,10 +4,18 @@ Type equality under binders: a mirror of `Debruijn::{insert, lookup_lhs, lookup_
 specification, alpha-equivalence by translation to de Bruijn indices.
 Variables carry the identity of their binder (`DefId` / `AbstId` in the code: one identity per
 binder occurrence in the source); free identities are the abstract types of enclosing `fn (A : VType)`.
+
+Structural `data ... end` and `codata ... end` types (the `(Type::Data, Type::Data)` and
+`(Type::CoData, Type::CoData)` arms of `lub_inner`): the arms of a declaration are an ordered
+sequence of (name, type) (`im::Vector<(CtorName, TypeId)>` in `lang/statics/src/syntax.rs`,
+`Data::get` returns the FIRST arm of a name); the code compares the number of arms and then looks
+every arm of the left declaration up by name in the right one.  Its specification does not mention
+the declaration order: the nameless form keeps the arms sorted by name.
 Core Lean only (the driver links this file).
 -/
 namespace ZV.Lub
 
+mutual
 /-- Types of both sorts (the sorting discipline is the kind checker's business, not equality's). -/
 inductive Ty where
   | var (id : Nat)
@@ -20,7 +28,40 @@ inductive Ty where
   | all (k : Nat) (id : Nat) (body : Ty)
   /-- `exists (X : k) . body` -/
   | ex (k : Nat) (id : Nat) (body : Ty)
+  /-- `data | +C1 : t1 | ... end`, constructors named by numbers, in declaration order -/
+  | data (arms : Arms)
+  /-- `codata | .d1 : b1 | ... end`, destructors named by numbers, in declaration order -/
+  | codata (arms : Arms)
   deriving DecidableEq, Repr, Inhabited
+/-- the arms of one declaration, in declaration order -/
+inductive Arms where
+  | nil
+  | cons (name : Nat) (ty : Ty) (rest : Arms)
+  deriving DecidableEq, Repr, Inhabited
+end
+
+/-- `Data::len` / `CoData::len` -/
+def Arms.length : Arms → Nat
+  | .nil => 0
+  | .cons _ _ rest => rest.length + 1
+
+/-- `Data::get` / `CoData::get`: the first arm of that name -/
+def Arms.get : Arms → Nat → Option Ty
+  | .nil, _ => none
+  | .cons n t rest, m => if m = n then some t else rest.get m
+
+/-- the names in declaration order -/
+def Arms.names : Arms → List Nat
+  | .nil => []
+  | .cons n _ rest => n :: rest.names
+
+def Arms.toList : Arms → List (Nat × Ty)
+  | .nil => []
+  | .cons n t rest => (n, t) :: rest.toList
+
+def Arms.ofList : List (Nat × Ty) → Arms
+  | [] => .nil
+  | (n, t) :: rest => .cons n t (Arms.ofList rest)
 
 /-- `Debruijn`: the binder level and the two identity-to-level maps (later insertions win) -/
 structure Ctx where
@@ -35,10 +76,14 @@ def lookup (m : List (Nat × Nat)) (id : Nat) : Option Nat := (m.find? (·.1 == 
 def Ctx.insert (c : Ctx) (l r : Nat) : Ctx :=
   { level := c.level + 1, lhs := (l, c.level) :: c.lhs, rhs := (r, c.level) :: c.rhs }
 
+mutual
 /-- `lub_inner` on solved types, as a decision: do the two types unify without filling anything.
 The `Abst` rule of the code is the one mirrored for variables bound by binders of the compared
 types and for abstract types of the context: equal when both are bound at the same level, or both
-are unbound and identical. -/
+are unbound and identical.
+`data` / `codata`: the numbers of arms must agree, then every arm of the LEFT declaration, in
+declaration order, is looked up by name in the right declaration and the two types are compared in
+the same context (`self.clone()`); a name the right side lacks is an error. -/
 def lubEq (c : Ctx) : Ty → Ty → Bool
   | .var a, .var b =>
     match lookup c.lhs a, lookup c.rhs b with
@@ -54,9 +99,21 @@ def lubEq (c : Ctx) : Ty → Ty → Bool
   | .arr a b, .arr a' b' => lubEq c a a' && lubEq c b b'
   | .all k x body, .all k' x' body' => k == k' && lubEq (c.insert x x') body body'
   | .ex k x body, .ex k' x' body' => k == k' && lubEq (c.insert x x') body body'
+  | .data as, .data bs => as.length == bs.length && lubArms c as bs
+  | .codata as, .codata bs => as.length == bs.length && lubArms c as bs
   | _, _ => false
+/-- the loop `for (name, lhs_ty) in lhs_arms { rhs_arms.get(&name) ... lub(lhs_ty, rhs_ty) }` -/
+def lubArms (c : Ctx) : Arms → Arms → Bool
+  | .nil, _ => true
+  | .cons n t rest, bs =>
+    (match bs.get n with
+      | some t' => lubEq c t t'
+      | none => false) && lubArms c rest bs
+end
 
-/-- Nameless types: bound variables are indices (0 = innermost binder), free ones keep their identity. -/
+mutual
+/-- Nameless types: bound variables are indices (0 = innermost binder), free ones keep their
+identity; the arms of a declaration are kept sorted by name. -/
 inductive DB where
   | bound (i : Nat)
   | free (id : Nat)
@@ -67,8 +124,29 @@ inductive DB where
   | arr (a b : DB)
   | all (k : Nat) (body : DB)
   | ex (k : Nat) (body : DB)
+  | data (arms : DBArms)
+  | codata (arms : DBArms)
   deriving DecidableEq, Repr
+inductive DBArms where
+  | nil
+  | cons (name : Nat) (ty : DB) (rest : DBArms)
+  deriving DecidableEq, Repr
+end
 
+/-- insertion of an arm in front of the first arm whose name is not smaller -/
+def DBArms.insert (n : Nat) (d : DB) : DBArms → DBArms
+  | .nil => .cons n d .nil
+  | .cons m e rest => if n ≤ m then .cons n d (.cons m e rest) else .cons m e (DBArms.insert n d rest)
+
+def DBArms.get : DBArms → Nat → Option DB
+  | .nil, _ => none
+  | .cons n d rest, m => if m = n then some d else rest.get m
+
+def DBArms.names : DBArms → List Nat
+  | .nil => []
+  | .cons n _ rest => n :: rest.names
+
+mutual
 /-- translation under a stack of enclosing binder identities (innermost first) -/
 def toDB (env : List Nat) : Ty → DB
   | .var a => match env.idxOf? a with
@@ -83,17 +161,47 @@ def toDB (env : List Nat) : Ty → DB
   | .arr a b => .arr (toDB env a) (toDB env b)
   | .all k x body => .all k (toDB (x :: env) body)
   | .ex k x body => .ex k (toDB (x :: env) body)
+  | .data as => .data (toDBArms env as)
+  | .codata as => .codata (toDBArms env as)
+/-- the arms translated and sorted by name (insertion sort), so that the declaration order is
+forgotten -/
+def toDBArms (env : List Nat) : Arms → DBArms
+  | .nil => .nil
+  | .cons n t rest => (toDBArms env rest).insert n (toDB env t)
+end
 
-/-- alpha-equivalence of closed-or-open types -/
+/-- alpha-equivalence of closed-or-open types, up to the order of the arms of declarations -/
 def alphaEq (a b : Ty) : Bool := toDB [] a == toDB [] b
 
+mutual
+/-- Well-formed declarations: the names of one `data` / `codata` declaration are pairwise
+distinct, everywhere in the type.  (The code does NOT enforce this: a declaration that repeats a
+constructor name is accepted and its arms are kept in order, `get` then sees only the first.) -/
+def WF : Ty → Bool
+  | .var _ | .int | .str | .unit => true
+  | .prod a b | .arr a b => WF a && WF b
+  | .thk b | .ret b => WF b
+  | .all _ _ body | .ex _ _ body => WF body
+  | .data as | .codata as => WFArms as
+def WFArms : Arms → Bool
+  | .nil => true
+  | .cons n t rest => !(rest.names.contains n) && WF t && WFArms rest
+end
+
+mutual
 /-- identities bound somewhere in a type -/
 def binders : Ty → List Nat
   | .var _ | .int | .str | .unit => []
   | .prod a b | .arr a b => binders a ++ binders b
   | .thk b | .ret b => binders b
   | .all _ x body | .ex _ x body => x :: binders body
+  | .data as | .codata as => bindersArms as
+def bindersArms : Arms → List Nat
+  | .nil => []
+  | .cons _ t rest => binders t ++ bindersArms rest
+end
 
+mutual
 /-- identities occurring free -/
 def freeIds (env : List Nat) : Ty → List Nat
   | .var a => if env.contains a then [] else [a]
@@ -101,9 +209,34 @@ def freeIds (env : List Nat) : Ty → List Nat
   | .prod a b | .arr a b => freeIds env a ++ freeIds env b
   | .thk b | .ret b => freeIds env b
   | .all _ x body | .ex _ x body => freeIds (x :: env) body
+  | .data as | .codata as => freeIdsArms env as
+def freeIdsArms (env : List Nat) : Arms → List Nat
+  | .nil => []
+  | .cons _ t rest => freeIds env t ++ freeIdsArms env rest
+end
 
 /-- The naming discipline of elaborated types: an identity is bound by one binder occurrence only,
 and is never also free (one `DefId` / `AbstId` per binder in the source). -/
 def Fresh (a : Ty) : Prop := (binders a).Nodup ∧ ∀ x ∈ binders a, x ∉ freeIds [] a
+
+/-- "the arms of declarations were permuted": the least relation that contains every permutation
+of the arms of a `data` / `codata` declaration and is closed under the type formers.  A change
+inside the type of an arm is expressed on the first arm (`data_head`); together with `data_perm`
+and `trans` this reaches every arm. -/
+inductive ArmPerm : Ty → Ty → Prop where
+  | refl (a : Ty) : ArmPerm a a
+  | trans {a b c : Ty} : ArmPerm a b → ArmPerm b c → ArmPerm a c
+  | prod {a a' b b' : Ty} : ArmPerm a a' → ArmPerm b b' → ArmPerm (.prod a b) (.prod a' b')
+  | arr {a a' b b' : Ty} : ArmPerm a a' → ArmPerm b b' → ArmPerm (.arr a b) (.arr a' b')
+  | thk {b b' : Ty} : ArmPerm b b' → ArmPerm (.thk b) (.thk b')
+  | ret {a a' : Ty} : ArmPerm a a' → ArmPerm (.ret a) (.ret a')
+  | all {k x : Nat} {b b' : Ty} : ArmPerm b b' → ArmPerm (.all k x b) (.all k x b')
+  | ex {k x : Nat} {b b' : Ty} : ArmPerm b b' → ArmPerm (.ex k x b) (.ex k x b')
+  | data_perm {as bs : Arms} : as.toList.Perm bs.toList → ArmPerm (.data as) (.data bs)
+  | data_head {n : Nat} {t t' : Ty} {rest : Arms} :
+      ArmPerm t t' → ArmPerm (.data (.cons n t rest)) (.data (.cons n t' rest))
+  | codata_perm {as bs : Arms} : as.toList.Perm bs.toList → ArmPerm (.codata as) (.codata bs)
+  | codata_head {n : Nat} {t t' : Ty} {rest : Arms} :
+      ArmPerm t t' → ArmPerm (.codata (.cons n t rest)) (.codata (.cons n t' rest))
 
 end ZV.Lub
